@@ -200,7 +200,10 @@ def run_one(m, outdir, worker):
         return dict(m, result="IMPORT-FAIL", detail=out[-200:])
     t0 = time.time()
     tried = []
-    for pid in sorted(m["props"], key=ORDER.index):
+    props = list(m["props"])
+    if m.get("kind") == "constraint-const" and "C16" not in props:
+        props.append("C16")   # every `_parameter_constraints` table is in the scope of C16, whatever file holds it
+    for pid in sorted(props, key=ORDER.index):
         env = dict(os.environ, VERIF_REPO=R)
         try:
             rc, out = sh(f"timeout 1500 ./check {pid} quick", cwd=V, env=env, timeout=1600)
